@@ -81,8 +81,10 @@ def deb(r):
 def rpm(r):
     s = ""
     if r.random() < 0.25:
-        s += r.choice(["0", "1", "2", "10"]) + ":"
+        s += r.choice(["0", "1", "2", "10", "00"]) + ":"
     v = dotted(r, 1, 3, lead_zero=0.1)
+    if s and r.random() < 0.1:
+        v = r.choice(["v", "V"]) + v          # a version that itself begins with a letter v
     if r.random() < 0.45:
         v += r.choice(["~", "^", ".", "a", "b", "~rc1", "^git1", "_", "A", "p1", ".a", "~~", "^^"]) + r.choice(["", "1", "2", "a"])
     s += v
